@@ -77,6 +77,11 @@ structure Pkt where
   hd : Nat
   pd : Nat
   size : Nat
+  /-- which writer instance of the stream the packet is bound to: 0 = first bind, 1 = first re-bind … -/
+  gen : Nat := 0
+
+/-- ` w=<gen>` identifies the writer instance that got the packet (printed for re-bound streams). -/
+def genSuffix (gen : Nat) : String := if gen = 0 then "" else s!" w={gen}"
 
 def showD (tNs : Nat) (stream seq hd pd : Nat) : String :=
   s!"d t={tNs / 1000} s={stream} seq={seq} h={hex8 hd} p={hex8 pd}"
@@ -114,7 +119,7 @@ def ticksUntil (target : Nat) : Nat → PSt → St Pkt FTB → Array String → 
     let st' := exec (pcfg ps.ivlUs) { st with delivered := [] } (.tick t)
     let isBlk := fun (p : Pkt) => ps.blk.contains (p.stream, p.seq)
     let out := st'.delivered.foldl
-      (fun o p => if isBlk p then o else o.push (showD t p.stream p.seq p.hd p.pd)) out
+      (fun o p => if isBlk p then o else o.push (showD t p.stream p.seq p.hd p.pd ++ genSuffix p.gen)) out
     let ps := { ps with blkDelivered := st'.delivered.foldl (fun a p => if isBlk p then a.push p else a) ps.blkDelivered }
     let credit := ps.credit + ps.rate * (t - ps.tlast)
     let rel := ps.relBits + (st'.delivered.map (8 * ·.size)).foldl (· + ·) 0
@@ -123,8 +128,8 @@ def ticksUntil (target : Nat) : Nat → PSt → St Pkt FTB → Array String → 
     ticksUntil target fuel ps { st' with delivered := [], accepted := [] } out
 
 /-- `Write` result line and packet of a shape on a stream. -/
-def mkPkt (s : Nat) (sh : Shape) : Pkt :=
-  ⟨s, sh.seq, hdrDigest sh, fnv fnvInit (payloadBytes sh), hdrSize sh + sh.pl⟩
+def mkPkt (bound : List Nat) (s : Nat) (sh : Shape) : Pkt :=
+  ⟨s, sh.seq, hdrDigest sh, fnv fnvInit (payloadBytes sh), hdrSize sh + sh.pl, bound.count s - 1⟩
 
 /-- the concurrent-writer block (`cwend`): the writers' sends reach the queue in SOME order; by
 `fifo_exactly_once` the per-stream delivery order is each writer's program order and the
@@ -134,7 +139,7 @@ def cwEnd (ps : PSt) (st : St Pkt FTB) (ws : List (Nat × Shape × Nat)) (drain 
   let streams := (ws.map (·.1)).eraseDups.mergeSort (· ≤ ·)
   let cwLines := streams.flatMap fun s =>
     (ws.filter (·.1 == s)).map fun (_, sh, _) => s!"cw s={s} n={hdrSize sh + sh.pl} err=nil"
-  let st1 := ws.foldl (fun st (s, sh, _) => ((accept (pcfg ps.ivlUs) st (mkPkt s sh)).getD st)) st
+  let st1 := ws.foldl (fun st (s, sh, _) => ((accept (pcfg ps.ivlUs) st (mkPkt ps.bound s sh)).getD st)) st
   let st1 := drainAll st1
   let maxSleep := (streams.map fun s => ((ws.filter (·.1 == s)).map (·.2.2)).foldl (· + ·) 0).foldl max 0
   let target := ps.now + (maxSleep + drain) * 1000
@@ -142,7 +147,7 @@ def cwEnd (ps : PSt) (st : St Pkt FTB) (ws : List (Nat × Shape × Nat)) (drain 
   let (ps2, st2, out) := ticksUntil target ((maxSleep + drain) / ps.ivlUs + 2) ps1 st1 #[]
   let del := ps2.blkDelivered.toList
   let cwdLines := streams.flatMap fun s =>
-    (del.filter (·.stream == s)).map fun p => s!"cwd s={p.stream} seq={p.seq} h={hex8 p.hd} p={hex8 p.pd}"
+    (del.filter (·.stream == s)).map fun p => s!"cwd s={p.stream} seq={p.seq} h={hex8 p.hd} p={hex8 p.pd}" ++ genSuffix p.gen
   ({ ps2 with st := some st2, now := target, cw := none, cwDone := true, blk := [], blkDelivered := #[] },
     out.toList ++ cwLines ++ cwdLines ++ [s!"cwsum accepted={ws.length} delivered={del.length} order=ok"])
 
@@ -184,7 +189,7 @@ def pacingStep (ps : PSt) (ts : List String) : PSt × List String :=
       if s > 1000 || !ps.bound.contains s then (ps, ["bad-op"]) else
       if ps.closed then (ps, ["w post-close"]) else
       let n := hdrSize sh + sh.pl
-      let p : Pkt := ⟨s, sh.seq, hdrDigest sh, fnv fnvInit (payloadBytes sh), n⟩
+      let p : Pkt := { mkPkt ps.bound s sh with size := n }
       match accept (pcfg ps.ivlUs) st p with
       | some st' => ({ ps with st := some (drainAll st') }, [s!"w n={n} err=nil"])
       | none => (ps, ["w n=0 err=overflow"])
@@ -241,8 +246,13 @@ def leakyTicks (target : Nat) : Nat → LD → LSt LH → Array String → LD ×
     let out := if ((t - st.lastSent) / 1000000) * st.target ≥ 9007199254740992 then out.push "FLOAT-RANGE" else out
     match leakyTick lhsz { st with delivered := [], processed := [] } t with
     | .ok st' =>
-      let out := st'.delivered.foldl
-        (fun o d => o.push (showD t d.ssrc d.hdr.1 d.hdr.2.1 (fnv fnvInit d.payload))) out
+      -- replay the per-SSRC call counter to tell failed writer calls (`df`) from successful ones (`d`)
+      let (out, _) := st'.delivered.foldl
+        (fun (acc : Array String × List Nat) d =>
+          let (o, calls) := acc
+          let ok := !(st.fails.contains (d.ssrc, calls.count d.ssrc + 1))
+          let line := showD t d.ssrc d.hdr.1 d.hdr.2.1 (fnv fnvInit d.payload) ++ genSuffix (st.writers.count d.ssrc - 1)
+          (o.push (if ok then line else "df" ++ (line.drop 1).toString), d.ssrc :: calls)) (out, st.calls)
       leakyTicks target fuel { ld with nextTick := t + 5000000 } { st' with delivered := [], processed := [] } out
     | .err e => (ld, none, out.push s!"err {e}")
     | .panic s => (ld, none, out.push s!"PANIC {s}")
@@ -260,7 +270,14 @@ def leakyStep (ld : LD) (ts : List String) : LD × List String :=
     match getNat fs "s", ld.st with
     | some s, some st =>
       if s ≥ 4294967296 then (ld, ["bad-op"]) else
-      match lexec lhsz lItem st (.bind s) with
+      let fl := match lookup fs "fail" with
+        | some v => natList v
+        | none => some []
+      match fl with
+      | none => (ld, ["bad-op"])
+      | some fl =>
+      if fl.length > 64 || fl.any (· > 100000) then (ld, ["bad-op"]) else
+      match (lexec lhsz lItem st (.bind s)).bind (fun st1 => lexec lhsz lItem st1 (.setFails s fl)) with
       | .ok st' => ({ ld with st := some st' }, [])
       | _ => (ld, ["bad-op"])
     | _, _ => (ld, ["bad-op"])
